@@ -317,4 +317,161 @@ theorem k_polyMultiplyByMonomial_eq (F : GF.GF) (hF : TablesOK F) (p : List Nat)
       | ok v => rfl
       | error e => cases e <;> rfl
 
+
+when_kernel Gzx.Gen.K04b.polyMultiplyBy in
+/-- `MultiplyBy(scalar)` = the model's `multiplyBy` -/
+theorem k_polyMultiplyBy_eq (F : GF.GF) (hF : TablesOK F) (p : List Nat) (hp : p ≠ []) (scalar : Nat) :
+    Gen.K04b.polyMultiplyBy (fieldRec F) (ints p) scalar = (multiplyBy F p scalar).map ints := by
+  simp only [Gen.K04b.polyMultiplyBy, multiplyBy, natCast_beq_zero, len_ints]
+  by_cases hc : scalar = 0
+  · subst hc; rfl
+  simp only [beq_eq_false_iff_ne.mpr hc, Bool.false_eq_true, if_false, hc]
+  by_cases h1 : scalar = 1
+  · subst h1; rfl
+  have hb1 : ((scalar : Int) == 1) = false := by
+    rw [show (1 : Int) = ((1 : Nat) : Int) from rfl, natCast_beq]; exact beq_eq_false_iff_ne.mpr h1
+  simp only [hb1, Bool.false_eq_true, if_false, h1]
+  rw [mk_words _ (p.length + 0) (by omega)]
+  simp only [tryR_ok]
+  rw [fill_loop F hF p scalar 0 rfl (by rw [tripUp_one]; omega) rfl (fun j hj t => by
+    rw [idx_ints _ _ (0 + j) rfl, Nat.zero_add, List.getElem?_eq_getElem hj]
+    simp only [tryC_ok, mapStep]
+    rw [k_gfMultiply_eq F hF]
+    cases F.mul p[j] scalar with
+    | error e => rfl
+    | ok m =>
+      simp only [Except.map, tryC_ok, Int.ofNat_eq_natCast]
+      rw [setIdx_words _ _ _ j m (by rfl) (by rfl)]
+      cases Bits.setWord t j m <;> rfl)]
+  simp only [bind, Except.bind]
+  cases hm : p.mapM (fun c => F.mul c scalar) with
+  | error e => rfl
+  | ok ms =>
+    simp only [Except.map, stepC_ok, mapS_next, next_thenR, List.replicate_zero, List.append_nil]
+    rw [k_newPoly_eq]
+    have hl : ms ≠ [] := by
+      intro h; subst h
+      have := congrArg (Except.map List.length) hm
+      cases p with
+      | nil => exact hp rfl
+      | cons x xs =>
+        rw [List.mapM_cons] at hm
+        simp only [bind, Except.bind] at hm
+        cases hx : F.mul x scalar with
+        | error e => rw [hx] at hm; cases hm
+        | ok m =>
+          rw [hx] at hm
+          cases hxs : xs.mapM (fun c => F.mul c scalar) with
+          | error e => rw [hxs] at hm; cases hm
+          | ok ms' => rw [hxs] at hm; cases hm
+    unfold mkPoly
+    cases ms with
+    | nil => exact absurd rfl hl
+    | cons m ms => rfl
+
+/-! ### AddOrSubtract -/
+
+/-- one step of the sum loop: `sumDiff[i] = x ^ larger[i]` -/
+def addStep (larger : List Nat) (i x : Nat) (sd : List Nat) : Ctl (List Nat) ρ :=
+  match larger[i]? with
+  | some y => stepC (Bits.setWord sd i (x ^^^ y))
+  | none => .panic oob
+
+theorem iterL_add (larger : List Nat) : ∀ (s lt pre lpre : List Nat), larger = lpre ++ lt → lpre.length = pre.length →
+    s.length = lt.length →
+    iterL (ρ := ρ) (addStep larger) pre.length s (pre ++ List.replicate s.length 0) =
+      .next (pre ++ List.zipWith (· ^^^ ·) s lt) := by
+  intro s
+  induction s with
+  | nil => intro lt pre lpre _ _ _; simp [iterL]
+  | cons x xs ih =>
+    intro lt pre lpre hl hpre hlen
+    cases lt with
+    | nil => simp at hlen
+    | cons y ys =>
+      have hy : larger[pre.length]? = some y := by
+        rw [hl, ← hpre, List.getElem?_append_right (Nat.le_refl _), Nat.sub_self]; rfl
+      have hset : Bits.setWord (pre ++ List.replicate (x :: xs).length 0) pre.length (x ^^^ y) =
+          .ok ((pre ++ [x ^^^ y]) ++ List.replicate xs.length 0) := by
+        unfold Bits.setWord
+        rw [if_pos (by simp)]
+        congr 1
+        rw [List.set_append_right _ _ (Nat.le_refl _), Nat.sub_self, List.length_cons, List.replicate_succ, List.set_cons_zero]
+        simp
+      simp only [iterL, addStep, hy, hset, stepC_ok]
+      have := ih ys (pre ++ [x ^^^ y]) (lpre ++ [y]) (by rw [hl]; simp) (by simp [hpre]) (by simpa using hlen)
+      rw [List.length_append, List.length_singleton] at this
+      rw [this]
+      simp
+
+/-- the part of `AddOrSubtract` after the operands have been ordered (`s` the shorter, `l` the longer; `hsl : s.length ≤ l.length`
+    in the context) -/
+local macro "addsub_tail " s:term:max l:term:max : tactic => `(tactic| (
+  rw [mk_words _ ($l).length rfl]
+  simp only [tryR_ok]
+  have hsl' : GoM.slice (ints $l) 0 ((($l).length : Int) - (($s).length : Int)) = .ok (ints (($l).take (($l).length - ($s).length))) := by
+    unfold GoM.slice
+    rw [if_pos (by simp [ints_length]; omega)]
+    congr 1
+    rw [show ((($l).length : Int) - (($s).length : Int)).toNat = ($l).length - ($s).length by omega]
+    simp [ints, List.map_take]
+  rw [hsl']
+  simp only [tryR_ok]
+  have hcopy : copyL (words (List.replicate ($l).length 0)) (ints (($l).take (($l).length - ($s).length))) =
+      ints (($l).take (($l).length - ($s).length) ++ List.replicate ($s).length 0) := by
+    unfold copyL
+    simp only [words, ints, List.length_map, List.length_replicate, List.length_take, List.map_append, List.map_replicate,
+      List.drop_replicate]
+    rw [List.take_of_length_le (by simp), show ($l).length - min (($l).length - ($s).length) ($l).length = ($s).length by omega]
+  rw [hcopy]
+  rw [loop_list' ints (addStep $l) $s (($l).length - ($s).length) (($l).take (($l).length - ($s).length) ++ List.replicate ($s).length 0)
+    rfl (by rw [tripUp_one]; omega) (by omega) (fun j hj t => by
+      rw [idx_ints _ _ j (by omega), List.getElem?_eq_getElem hj]
+      simp only [tryC_ok, addStep]
+      rw [idx_ints _ _ (($l).length - ($s).length + j) rfl]
+      cases ($l)[($l).length - ($s).length + j]? with
+      | none => rfl
+      | some y =>
+        simp only [tryC_ok]
+        rw [k_gfAddOrSubtract_eq]
+        simp only [tryC_ok]
+        rw [setIdx_words _ _ _ (($l).length - ($s).length + j) (($s)[j] ^^^ y) (by rfl) (by rfl)]
+        cases Bits.setWord t (($l).length - ($s).length + j) (($s)[j] ^^^ y) <;> rfl)]
+  have hit := iterL_add (ρ := List Int × Bool) $l $s (($l).drop (($l).length - ($s).length)) (($l).take (($l).length - ($s).length))
+    (($l).take (($l).length - ($s).length)) (List.take_append_drop _ _).symm rfl (by simp; omega)
+  rw [List.length_take, Nat.min_eq_left (by omega)] at hit
+  rw [hit]
+  simp only [mapS_next, next_thenR]
+  rw [k_newPoly_eq]
+  cases mkPoly (($l).take (($l).length - ($s).length) ++ List.zipWith (· ^^^ ·) $s (($l).drop (($l).length - ($s).length))) with
+  | ok v => rfl
+  | error e => cases e <;> rfl
+))
+
+when_kernel Gzx.Gen.K04b.polyAddOrSubtract in
+/-- `AddOrSubtract(other)` = the model's `addOrSubtract`: the other operand if one is zero, otherwise the coefficient-wise
+    xor aligned at the low end, normalised by `NewGenericGFPoly` (both polynomials over the one ambient field) -/
+theorem k_polyAddOrSubtract_eq (F : GF.GF) (p q : List Nat) (hp : p ≠ []) (hq : q ≠ []) :
+    Gen.K04b.polyAddOrSubtract (fieldRec F) (ints p) (ints q) = expE [] ints (addOrSubtract p q) := by
+  simp only [Gen.K04b.polyAddOrSubtract, addOrSubtract, Bool.false_eq_true, if_false]
+  rw [k_polyIsZero_eq _ p hp]
+  simp only [tryR_ok]
+  by_cases hzp : isZero p = true
+  · simp only [hzp, if_true]; rfl
+  simp only [hzp, Bool.false_eq_true, if_false]
+  rw [k_polyIsZero_eq _ q hq]
+  simp only [tryR_ok]
+  by_cases hzq : isZero q = true
+  · simp only [hzq, if_true]; rfl
+  simp only [hzq, Bool.false_eq_true, if_false, len_ints]
+  by_cases hlen : p.length > q.length
+  · have hd : decide ((p.length : Int) > (q.length : Int)) = true := by apply decide_eq_true; omega
+    simp only [hd, if_true, next_thenR, hlen, len_ints]
+    have hsl : q.length ≤ p.length := by omega
+    addsub_tail q p
+  · have hd : decide ((p.length : Int) > (q.length : Int)) = false := by apply decide_eq_false; omega
+    simp only [hd, Bool.false_eq_true, if_false, next_thenR, hlen, len_ints]
+    have hsl : p.length ≤ q.length := by omega
+    addsub_tail p q
+
 end Gzx.Obligations.K04bPoly
